@@ -338,21 +338,75 @@ def run(ck, F):
     if not wk:
         raise AnalysisBroken('word_if_known not found')
     body = wk[0]['body']
-    lbs = [n for n in walk(body) if n.get('k') == 'call' and (n.get('callee') or {}).get('name') == 'lower_bound']
-    over = len(lbs) == 1 and sum(1 for n in walk(lbs[0]) if n.get('k') == 'ref' and n.get('name') == 'known_words') >= 2 and \
-        any(n.get('k') == 'ref' and n.get('name') == 'word_lt' for n in walk(lbs[0]))
-    neq = any(n.get('k') == 'call' and (n.get('callee') or {}).get('name') in ('operator!=', 'operator==') and
-              any(m.get('k') == 'ref' and m.get('kind') == 'parm' for m in walk(n)) and any((m.get('callee') or {}).get('name') == 'text' for m in walk(n) if m.get('k') == 'call')
-              for n in walk(body))
-    endt = any(n.get('k') == 'binop' and n.get('op') in ('>=', '==') for n in walk(body))
-    ck.check(R5, 'word_if_known', over and neq and endt,
-             f'word_if_known: lower_bound over known_words with word_lt={over}, equality confirmation={neq}, end test={endt}', loc=wk[0]['loc'], fn=wk[0]['id'])
-    wl = [g2 for g2 in F.fn.values() if g2.get('lambda_call') and '(lambda word_lt)' in g2['id']]
-    good = False
-    for g2 in wl:
-        cs = [n for n in walk(g2['body']) if n.get('k') == 'call' and (n.get('callee') or {}).get('name') in ('operator<', 'operator<=>')]
-        good = good or bool(cs)
-    ck.check(R5, 'word_lt', good, 'word_lt is not a `<` comparison of the row text with the word', loc=wk[0]['loc'])
+    # recognised search idioms over the *whole* sorted table (each sound for every word, given a strict `<` on the text):
+    #   A  lower_bound(table, w, lt), then the hit is confirmed by an equality test on the text (and the end is excluded)
+    #   B  equal_range(table, w, lt2), null exactly when the range is empty
+    def whole_table(call):
+        return sum(1 for n in walk(call) if n.get('k') == 'ref' and n.get('name') == 'known_words') >= 2
+    algos = [n for n in walk(body) if n.get('k') == 'call' and (n.get('callee') or {}).get('name') in ('lower_bound', 'equal_range')
+             and (n.get('callee') or {}).get('repo') is False]
+    idiom, over, confirm = None, False, False
+    cmp_cls = None
+    if len(algos) == 1:
+        a0 = algos[0]
+        idiom = a0['callee']['name']
+        over = whole_table(a0)
+        cargs = a0.get('args', [])
+        if len(cargs) == 4:
+            ct = strip_casts(cargs[3])
+            cmp_cls = (ct.get('cls') or ct.get('t') or '').replace('const ', '').replace('&', '').replace('(anonymous namespace)', '(anon)').strip()
+            if not cmp_cls or cmp_cls not in F.rec:
+                # a lambda variable: its closure type is the parent of the call operator it names
+                refs = [n for n in walk(cargs[3]) if n.get('k') in ('ref', 'lambda', 'ctor')]
+                for r in refs:
+                    for t in (r.get('cls'), r.get('t')):
+                        t = (t or '').replace('const ', '').replace('&', '').replace('(anonymous namespace)', '(anon)').strip()
+                        if t in F.rec:
+                            cmp_cls = t
+        if idiom == 'lower_bound':
+            neq = any(n.get('k') == 'call' and (n.get('callee') or {}).get('name') in ('operator!=', 'operator==') and
+                      any(m.get('k') == 'ref' and m.get('kind') == 'parm' for m in walk(n)) and any((m.get('callee') or {}).get('name') == 'text' for m in walk(n) if m.get('k') == 'call')
+                      for n in walk(body))
+            endt = any(n.get('k') == 'binop' and n.get('op') in ('>=', '==', '!=', '<') for n in walk(body))
+            confirm = neq and endt
+        else:
+            # first == last  <=>  no equivalent row
+            confirm = any(n.get('k') == 'binop' and n.get('op') in ('==', '!=') and len([m for m in walk(n) if m.get('k') == 'ref' and m.get('kind') in ('local', 'binding')]) >= 2
+                          for n in walk(body))
+    ck.check(R5, 'word_if_known', bool(idiom) and over and confirm,
+             f'word_if_known: search idiom={idiom}, over the whole table={over}, hit confirmed / empty range excluded={confirm}', loc=wk[0]['loc'], fn=wk[0]['id'])
+    # the ordering used by the search: every call operator of the comparator is `text of the row < word` (or the mirror image)
+    ops = [g2 for g2 in F.fn.values() if g2['name'] == 'operator()' and len(g2['params']) == 2 and
+           ((cmp_cls and g2.get('parent') == cmp_cls) or (not cmp_cls and g2.get('lambda_call') and '(lambda word_lt)' in g2['id']))]
+    good = bool(ops)
+    S6 = Sym(F, opaque=lambda fid: F.fn.get(fid) is None)
+    for g2 in ops:
+        try:
+            o6 = S6.run(g2['id'], this=('sym', 'cmp'), args=[('param', 0), ('param', 1)])
+        except Unsupported:
+            good = False
+            continue
+        ok1 = False
+        if len(o6) == 1 and o6[0][1] == 'return':
+            v = o6[0][2]
+            if isinstance(v, tuple) and v[0] == 'call' and contracts.fn_simple(v[1]) == 'operator<' and len(v[3]) == 2:
+                l, r = v[3]
+                if isinstance(l, tuple) and l[0] == 'call' and contracts.fn_simple(l[1]) == 'operator<=>' and len(l[3]) == 2:
+                    l, r = l[3]          # C++20: a < b is (a <=> b) < 0
+
+                def roots(t, acc):
+                    if isinstance(t, tuple):
+                        if t and t[0] == 'param':
+                            acc.add(t[1])
+                        else:
+                            for x in t:
+                                roots(x, acc)
+                    return acc
+                # left operand from the first argument, right operand from the second; one is the word itself, the other the
+                # text of the row
+                ok1 = roots(l, set()) == {0} and roots(r, set()) == {1} and ((l == ('param', 0)) != (r == ('param', 1)))
+        good = good and ok1
+    ck.check(R5, 'word_lt', good, 'the comparator of the reserved-word search is not `text of the row < word` in the order of its arguments', loc=wk[0]['loc'])
 
 
 def subterms(t):
